@@ -22,7 +22,7 @@ LEVEL = "other"
 LEVEL_TEXT = "Partial by nature. Theorem about the seeding plan (which generator feeds which consumer): with a seed, no draw depends on ambient generator state. The runtime part — hash-order iteration, unseeded generators inside libraries, process state — is sampled: twin runs in-process after different pollution of both global generators and in fresh interpreters with different PYTHONHASHSEED must give identical trees (ids, start metaepochs, genomes, fitness, counts, flags) and identical generator states right after construction."
 LEVEL_NOTE = "NumPy / Python / cma / scipy generators trusted to be deterministic functions of their seed; sampled configurations only; objectives with NaN holes included (ordering of NaN individuals uses the stdlib generator)."
 TECHNIQUE = "Lean theorem on the seeding plan + twin-run differential across RNG pollution, processes and hash seeds"
-RULE = "case = one configuration run 2x in-process (different pollution) + in 2 fresh interpreters (PYTHONHASHSEED 0 and 4242); non-trivial = run with >= 2 demes; distinct by configuration hash"
+RULE = "case = one configuration run 2x in-process (different pollution) + in 2 fresh interpreters (PYTHONHASHSEED 0 and 4242) + 2x in-process sharing one sprout mechanism object; non-trivial = run with >= 2 demes; distinct by configuration hash"
 ASSUMPTIONS = ["library generators are deterministic given their seed", "objective deterministic"]
 EXPLANATION = "twin-run differential; see LEVEL_TEXT"
 NAN_SAFE = ["sea", "seax", "ga", "adapt", "de", "ded", "shade"]
@@ -69,19 +69,26 @@ def batch(ctx, n, salt, sl):
     b = [safe(digest_of, s, 987) for s in specs]
     c = worker(specs, 0, 31337)
     d = worker(specs, 4242, 5)
-    for spec, ra, rb, rc, rd in zip(specs, a, b, c, d):
+    # the same configuration run twice more with ONE sprout mechanism object (everything else built afresh):
+    # the second of these runs must be the same tree again
+    e = []
+    for s in specs:
+        holder = {}
+        safe(digest_of, s, 4711, holder)
+        e.append(safe(digest_of, s, 815, holder))
+    for spec, ra, rb, rc, rd, re_ in zip(specs, a, b, c, d, e):
         sl.cases += 1
         desc = R.describe(spec)
         sl.count("engines:" + ">".join(desc["engines"]))
         sl.count("objective:" + spec["objective"])
         if "error" in ra:
             sl.count("run-raised:" + ra["error"][:60])
-            if any(("error" in r) != True or r["error"] != ra["error"] for r in (rb, rc, rd)):
+            if any(("error" in r) != True or r["error"] != ra["error"] for r in (rb, rc, rd, re_)):
                 sl.violations.append({"signature": "C14/not-reproducible", "detail": f"one repetition raised {ra['error'][:150]}, another did not / raised something else", "replay": {"spec": spec}})
             continue
         if ra.get("demes", 0) >= 2:
             sl.nontrivial.add(R.spec_id(spec))
-        for name, r in (("in-process, other pollution of the global generators", rb), ("fresh interpreter PYTHONHASHSEED=0", rc), ("fresh interpreter PYTHONHASHSEED=4242", rd)):
+        for name, r in (("in-process, other pollution of the global generators", rb), ("fresh interpreter PYTHONHASHSEED=0", rc), ("fresh interpreter PYTHONHASHSEED=4242", rd), ("in-process, second run with a sprout mechanism object that already served a run of this configuration", re_)):
             if r.get("rng_after_init") != ra["rng_after_init"]:
                 sl.violations.append({"signature": "C14/generator-not-seeded", "detail": f"{name}: the global generator states right after DemeTree construction differ between two seeded runs (some generator is not seeded from options.random_seed)", "replay": {"spec": spec}})
                 break
